@@ -548,12 +548,15 @@ def rule_split_init(rep: Report, rid="C04.cells") -> None:
             if inner[0] == "call" and inner[1] == "re.sub" and len(inner[2]) == 3 and is_const(inner[2][0]) and is_const(inner[2][1], "") and inner[2][2] == cell:
                 f1, f2 = _re_flags(inner[3]), _re_flags(text[3])
                 ok_l = regexnf.same(inner[2][0][1], f1, r"^[^\S\n]*", re.U)
-                ok_r = regexnf.same(text[2][0][1], f2, r"[^\S\n]*$", re.U)
+                # anchored at the very end of the text: '$' would also match in front of a final line feed and take the
+                # blanks before it (cell text 'a \n' must stay as it is - only blanks at the ends go)
+                ok_r = regexnf.same(text[2][0][1], f2, r"[^\S\n]*\Z", re.U)
                 ok_t = ok_l and ok_r
                 l = inner
                 rep.ob("C12.trim", "leading blanks (whitespace except line feed) are removed from a cell", ok_l, **kw2, expected=regexnf.describe(r"^[^\S\n]*", re.U),
                        found=regexnf.describe(inner[2][0][1], f1))
-                rep.ob("C12.trim", "trailing blanks (whitespace except line feed) are removed from a cell", ok_r, **kw2, expected=regexnf.describe(r"[^\S\n]*$", re.U),
+                rep.ob("C12.trim", "trailing blanks (whitespace except line feed) are removed at the very end of a cell only (a line feed at the end, and blanks before it, stay)",
+                       ok_r, **kw2, expected=regexnf.describe(r"[^\S\n]*\Z", re.U),
                        found=regexnf.describe(text[2][0][1], f2))
         if l is None:
             rep.ob("C12.trim", "cell text = split cell with blanks (not line feeds) trimmed at both ends, after unescaping", False, **kw2,
